@@ -566,57 +566,36 @@ func getGitHead(repoDir string) string {
 	return head
 }
 
-// writeResultEvent attaches a result file reference to a task.
-// The file must exist and be within the project root.
-func writeResultEvent(dir string, opts GlobalOptions, taskID, summary, relPath string) error {
-	lockPath := filepath.Join(dir, "lock")
-	eventsPath := getEventsPath(dir)
-	repoDir := filepath.Dir(dir)
+// buildResultEvent validates a result attachment for task and returns its event.
+// The file must exist and be within the project root. The caller holds the lock
+// and appends the event together with the rest of the command's events.
+func buildResultEvent(repoDir string, task *Task, summary, relPath string, now time.Time) (Event, error) {
+	if isEpic(task) {
+		return Event{}, errors.New("cannot attach result to epic")
+	}
+	if err := validateResultSummary(summary); err != nil {
+		return Event{}, err
+	}
 
-	return withLock(lockPath, syscall.LOCK_EX, func() error {
-		graph, err := loadGraph(dir)
-		if err != nil {
-			return err
-		}
-		if _, ok := graph.Tombstones[taskID]; ok {
-			return prunedErr(taskID)
-		}
-		task, ok := graph.Tasks[taskID]
-		if !ok {
-			return fmt.Errorf("unknown task id %s", taskID)
-		}
-		if isEpic(task) {
-			return errors.New("cannot attach result to epic")
-		}
-		if err := validateResultSummary(summary); err != nil {
-			return err
-		}
+	// Validate and normalize path
+	cleanPath, err := validateResultPath(repoDir, relPath)
+	if err != nil {
+		return Event{}, err
+	}
 
-		// Validate and normalize path
-		cleanPath, err := validateResultPath(repoDir, relPath)
-		if err != nil {
-			return err
-		}
+	// Capture evidence
+	evidence, err := captureResultEvidence(repoDir, cleanPath)
+	if err != nil {
+		return Event{}, err
+	}
 
-		// Capture evidence
-		evidence, err := captureResultEvidence(repoDir, cleanPath)
-		if err != nil {
-			return err
-		}
-
-		now := time.Now().UTC()
-		event, err := newEvent("result", now, ResultEvent{
-			TaskID:            taskID,
-			Summary:           strings.TrimSpace(summary),
-			Path:              cleanPath,
-			Sha256AtAttach:    evidence.Sha256AtAttach,
-			MtimeAtAttach:     evidence.MtimeAtAttach,
-			GitCommitAtAttach: evidence.GitCommitAtAttach,
-			TS:                formatTime(now),
-		})
-		if err != nil {
-			return err
-		}
-		return appendEvents(eventsPath, []Event{event})
+	return newEvent("result", now, ResultEvent{
+		TaskID:            task.ID,
+		Summary:           strings.TrimSpace(summary),
+		Path:              cleanPath,
+		Sha256AtAttach:    evidence.Sha256AtAttach,
+		MtimeAtAttach:     evidence.MtimeAtAttach,
+		GitCommitAtAttach: evidence.GitCommitAtAttach,
+		TS:                formatTime(now),
 	})
 }
